@@ -64,6 +64,7 @@ type Frame struct {
 	inlined bool
 	callOrd map[string]int
 	retVals []Val
+	srcMap  map[token.Pos]string
 }
 
 type Cur struct {
@@ -214,6 +215,9 @@ func (fr *Frame) newRef(prefix string) string {
 	r := e.sc.fresh(prefix, "Int")
 	a := e.get(fr.cur.st, "alloc")
 	e.sc.assert("(= " + r + " (+ " + a + " 1))")
+	if e.alloc0 != "" {
+		e.sc.assert("(> " + r + " " + e.alloc0 + ")")
+	}
 	e.set(fr.cur.st, "alloc", r)
 	return r
 }
@@ -273,6 +277,17 @@ func (fr *Frame) envAt(b *ssa.BasicBlock, idx int, st *State, phiMap map[*ssa.Ph
 	}
 	env.lookup = func(name string) (Val, bool) {
 		return fr.resolveAt(name, b, idx, st, phiMap)
+	}
+	env.oldLookup = func(name string) (Val, bool) {
+		for i, p := range fr.fn.Params {
+			if p.Name() == name && i < len(fr.params) {
+				return fr.params[i], true
+			}
+		}
+		if name == "this" && fr.fn.Signature.Recv() != nil && len(fr.params) > 0 {
+			return fr.params[0], true
+		}
+		return fr.resolveAt(name, b, idx, fr.entry, phiMap)
 	}
 	return env
 }
@@ -405,10 +420,25 @@ func (fr *Frame) findLoops() {
 			}
 		}
 	}
+	// phi comments of the header (source variables modified in the loop) are keys as well
+	var ordered []*loopInfo
+	for _, x := range hs {
+		li := fr.loops[x.h]
+		ordered = append(ordered, li)
+		for _, in := range li.header.Instrs {
+			p, ok := in.(*ssa.Phi)
+			if !ok {
+				break
+			}
+			if p.Comment != "" && p.Comment != "rangeindex" {
+				li.key = append(li.key, p.Comment)
+			}
+		}
+	}
 	if fr.spec != nil {
 		for _, c := range fr.spec.Loops {
 			matched := false
-			for _, li := range fr.loops {
+			for _, li := range ordered {
 				for _, k := range li.key {
 					if k == c.Key {
 						matched = true
@@ -502,6 +532,9 @@ func (e *Engine) merge(ins []edgeIn) *State {
 		c := e.sc.fresh(k, e.compSort[k])
 		for _, in := range ins {
 			e.sc.assert(sImp(in.reach, "(= "+c+" "+e.get(in.st, k)+")"))
+		}
+		if k == "alloc" && e.alloc0 != "" {
+			e.sc.assert("(>= " + c + " " + e.alloc0 + ")")
 		}
 		out.comps[k] = c
 	}
@@ -890,7 +923,7 @@ func (fr *Frame) step(in ssa.Instruction, incoming map[*ssa.BasicBlock][]edgeIn,
 	case *ssa.DebugRef:
 		if id, ok := x.Expr.(*ast.Ident); ok {
 			if obj := x.Object(); obj != nil {
-				if _, isVar := obj.(*types.Var); isVar {
+				if v, isVar := obj.(*types.Var); isVar && !v.IsField() {
 					fr.record(id.Name, fr.val(x.X), x.IsAddr)
 				}
 			}
@@ -927,6 +960,20 @@ func (fr *Frame) step(in ssa.Instruction, incoming map[*ssa.BasicBlock][]edgeIn,
 		}
 		fr.defers = append(fr.defers, d)
 	case *ssa.Go:
+		{
+			name := "dynamic"
+			if f := x.Call.StaticCallee(); f != nil {
+				name = e.fnName(f)
+			} else if x.Call.IsInvoke() {
+				name = x.Call.Method.FullName()
+			}
+			var args []Val
+			for _, a := range x.Call.Args {
+				args = append(args, fr.val(a))
+			}
+			fr.assertAtCall(name, args, x.Call.Signature())
+			fr.effectCheckCallee(x.Call.StaticCallee(), name)
+		}
 		e.assume("goroutine bodies are not interleaved (" + fr.prefix + " spawns one); shared state is covered only through lockset obligations")
 	case *ssa.Store:
 		fr.doStore(x)
@@ -936,7 +983,7 @@ func (fr *Frame) step(in ssa.Instruction, incoming map[*ssa.BasicBlock][]edgeIn,
 		v := fr.val(x.Value)
 		mt := m.Ty.Underlying().(*types.Map)
 		if e.checks("nil") {
-			fr.oblige("nil", "mapupdate("+x.Map.Name()+")", "(not (= "+m.T+" 0))")
+			fr.oblige("nil", "mapupdate("+fr.srcText(x.Pos(), fr.stableName(x.Map))+")", "(not (= "+m.T+" 0))")
 		}
 		dom, val := e.mapComps(mt)
 		fr.checkFrame(dom, m.T, "map")
@@ -977,7 +1024,7 @@ func (fr *Frame) doStore(x *ssa.Store) {
 	v := fr.val(x.Val)
 	pt := a.Ty.Underlying().(*types.Pointer).Elem()
 	if a.Src == nil {
-		fr.nilCheck(a, "store(*"+x.Addr.Name()+")")
+		fr.nilCheck(a, "store("+fr.srcText(x.Pos(), "*"+fr.stableName(x.Addr))+")")
 	}
 	fr.lockCheck(a, true)
 	// frame
@@ -1150,7 +1197,7 @@ func (fr *Frame) value(v ssa.Value) Val {
 		s, _ := isStruct(pt)
 		f := s.Field(x.Field)
 		key := e.structKey(pt)
-		fr.nilCheck(a, "fieldaddr("+x.X.Name()+"."+f.Name()+")")
+		fr.nilCheck(a, "fieldaddr("+fr.srcText(x.Pos(), fr.stableName(x.X)+"."+f.Name())+")")
 		fa := e.fa(key, f.Name(), a.T)
 		if _, ok := isStruct(f.Type()); ok {
 			return Val{T: fa, Ty: x.Type()}
@@ -1165,11 +1212,11 @@ func (fr *Frame) value(v ssa.Value) Val {
 		switch u := a.Ty.Underlying().(type) {
 		case *types.Array:
 			if e.checks("index") {
-				fr.oblige("index", x.X.Name(), fmt.Sprintf("(and (<= 0 %s) (< %s %d))", i.T, i.T, u.Len()))
+				fr.oblige("index", fr.srcText(x.Pos(), fr.stableName(x.X)), fmt.Sprintf("(and (<= 0 %s) (< %s %d))", i.T, i.T, u.Len()))
 			}
 			return Val{T: "(select " + a.T + " " + i.T + ")", Ty: x.Type()}
 		case *types.Basic: // string
-			fr.oblige("index", x.X.Name(), fmt.Sprintf("(and (<= 0 %s) (< %s (slen %s)))", i.T, i.T, a.T))
+			fr.oblige("index", fr.srcText(x.Pos(), fr.stableName(x.X)), fmt.Sprintf("(and (<= 0 %s) (< %s (slen %s)))", i.T, i.T, a.T))
 			r := Val{T: "(sat " + a.T + " " + i.T + ")", Ty: x.Type()}
 			fr.assumeHere(e.rangeOf(r.T, x.Type()))
 			return r
@@ -1180,7 +1227,7 @@ func (fr *Frame) value(v ssa.Value) Val {
 		switch u := a.Ty.Underlying().(type) {
 		case *types.Slice:
 			if e.checks("index") {
-				fr.oblige("index", x.X.Name(), fmt.Sprintf("(and (<= 0 %s) (< %s (s_len %s)))", i.T, i.T, a.T))
+				fr.oblige("index", fr.srcText(x.Pos(), fr.stableName(x.X)), fmt.Sprintf("(and (<= 0 %s) (< %s (s_len %s)))", i.T, i.T, a.T))
 			}
 			e.noteIndexTerm(i.T)
 			pos := e.sc.define("pos", "Int", "(+ (s_off "+a.T+") "+i.T+")")
@@ -1194,9 +1241,9 @@ func (fr *Frame) value(v ssa.Value) Val {
 		case *types.Pointer:
 			arr := u.Elem().Underlying().(*types.Array)
 			e.noteIndexTerm(i.T)
-			fr.nilCheck(a, "indexaddr("+x.X.Name()+")")
+			fr.nilCheck(a, "indexaddr("+fr.srcText(x.Pos(), fr.stableName(x.X))+")")
 			if e.checks("index") {
-				fr.oblige("index", x.X.Name(), fmt.Sprintf("(and (<= 0 %s) (< %s %d))", i.T, i.T, arr.Len()))
+				fr.oblige("index", fr.srcText(x.Pos(), fr.stableName(x.X)), fmt.Sprintf("(and (<= 0 %s) (< %s %d))", i.T, i.T, arr.Len()))
 			}
 			if _, ok := isStruct(arr.Elem()); ok {
 				return Val{T: "(ea " + a.T + " " + i.T + ")", Ty: x.Type()}
@@ -1225,7 +1272,7 @@ func (fr *Frame) value(v ssa.Value) Val {
 			return rv
 		}
 		// string index
-		fr.oblige("index", x.X.Name(), fmt.Sprintf("(and (<= 0 %s) (< %s (slen %s)))", k.T, k.T, a.T))
+		fr.oblige("index", fr.srcText(x.Pos(), fr.stableName(x.X)), fmt.Sprintf("(and (<= 0 %s) (< %s (slen %s)))", k.T, k.T, a.T))
 		r := Val{T: "(sat " + a.T + " " + k.T + ")", Ty: x.Type()}
 		fr.assumeHere(e.rangeOf(r.T, x.Type()))
 		return r
@@ -1256,7 +1303,7 @@ func (fr *Frame) value(v ssa.Value) Val {
 	case *ssa.MakeSlice:
 		l := fr.val(x.Len)
 		c := fr.val(x.Cap)
-		fr.oblige("makeslice", v.Name(), fmt.Sprintf("(and (<= 0 %s) (<= %s %s) (<= %s %s))", l.T, l.T, c.T, c.T, two48))
+		fr.oblige("makeslice", fr.srcText(x.Pos(), "make"), fmt.Sprintf("(and (<= 0 %s) (<= %s %s) (<= %s %s))", l.T, l.T, c.T, c.T, two48))
 		r := fr.newRef("arr")
 		et := x.Type().Underlying().(*types.Slice).Elem()
 		if _, ok := isStruct(et); !ok {
@@ -1319,9 +1366,9 @@ func (fr *Frame) sliceOp(x *ssa.Slice) Val {
 		max := "(s_cap " + a.T + ")"
 		if x.Max != nil {
 			max = fr.val(x.Max).T
-			fr.oblige("slice", x.X.Name(), fmt.Sprintf("(and (<= 0 %s) (<= %s %s) (<= %s %s) (<= %s (s_cap %s)))", lo, lo, hi, hi, max, max, a.T))
+			fr.oblige("slice", fr.srcText(x.Pos(), fr.stableName(x.X)), fmt.Sprintf("(and (<= 0 %s) (<= %s %s) (<= %s %s) (<= %s (s_cap %s)))", lo, lo, hi, hi, max, max, a.T))
 		} else {
-			fr.oblige("slice", x.X.Name(), fmt.Sprintf("(and (<= 0 %s) (<= %s %s) (<= %s (s_cap %s)))", lo, lo, hi, hi, a.T))
+			fr.oblige("slice", fr.srcText(x.Pos(), fr.stableName(x.X)), fmt.Sprintf("(and (<= 0 %s) (<= %s %s) (<= %s (s_cap %s)))", lo, lo, hi, hi, a.T))
 		}
 		t := fmt.Sprintf("(mk_slice (s_arr %[1]s) (+ (s_off %[1]s) %[2]s) (- %[3]s %[2]s) (- %[4]s %[2]s))", a.T, lo, hi, max)
 		return Val{T: e.sc.define("slice", "Slice", t), Ty: x.Type()}
@@ -1330,7 +1377,7 @@ func (fr *Frame) sliceOp(x *ssa.Slice) Val {
 		if x.High != nil {
 			hi = fr.val(x.High).T
 		}
-		fr.oblige("slice", x.X.Name(), fmt.Sprintf("(and (<= 0 %s) (<= %s %s) (<= %s (slen %s)))", lo, lo, hi, hi, a.T))
+		fr.oblige("slice", fr.srcText(x.Pos(), fr.stableName(x.X)), fmt.Sprintf("(and (<= 0 %s) (<= %s %s) (<= %s (slen %s)))", lo, lo, hi, hi, a.T))
 		sub := e.sc.declFun("substr", []string{"Int", "Int", "Int"}, "Int")
 		r := e.sc.define("substr", "Int", fmt.Sprintf("(%s %s %s %s)", sub, a.T, lo, hi))
 		fr.assumeHere(fmt.Sprintf("(= (slen %s) (- %s %s))", r, hi, lo))
@@ -1338,7 +1385,7 @@ func (fr *Frame) sliceOp(x *ssa.Slice) Val {
 		return Val{T: r, Ty: x.Type()}
 	case *types.Pointer:
 		arr := u.Elem().Underlying().(*types.Array)
-		fr.nilCheck(a, "slice(*"+x.X.Name()+")")
+		fr.nilCheck(a, "slice("+fr.srcText(x.Pos(), fr.stableName(x.X))+")")
 		n := fmt.Sprint(arr.Len())
 		hi := n
 		if x.High != nil {
@@ -1348,7 +1395,7 @@ func (fr *Frame) sliceOp(x *ssa.Slice) Val {
 		if x.Max != nil {
 			max = fr.val(x.Max).T
 		}
-		fr.oblige("slice", x.X.Name(), fmt.Sprintf("(and (<= 0 %s) (<= %s %s) (<= %s %s) (<= %s %s))", lo, lo, hi, hi, max, max, n))
+		fr.oblige("slice", fr.srcText(x.Pos(), fr.stableName(x.X)), fmt.Sprintf("(and (<= 0 %s) (<= %s %s) (<= %s %s) (<= %s %s))", lo, lo, hi, hi, max, max, n))
 		t := fmt.Sprintf("(mk_slice %s %s (- %s %s) (- %s %s))", a.T, lo, hi, lo, max, lo)
 		return Val{T: e.sc.define("slice", "Slice", t), Ty: x.Type()}
 	}
@@ -1365,7 +1412,7 @@ func (fr *Frame) typeAssert(x *ssa.TypeAssert) Val {
 		if x.CommaOk {
 			return Val{Tuple: []Val{{T: sIte(ok, a.T, "0"), Ty: x.AssertedType}, {T: ok, Ty: boolT}}, Ty: x.Type()}
 		}
-		fr.oblige("typeassert", x.X.Name(), ok)
+		fr.oblige("typeassert", fr.srcText(x.Pos(), fr.stableName(x.X)), ok)
 		return Val{T: a.T, Ty: x.AssertedType}
 	}
 	ok := e.sc.define("ta.ok", "Bool", fmt.Sprintf("(and (not (= %s 0)) (= (dyntype %s) %d))", a.T, a.T, e.typeID(x.AssertedType)))
@@ -1374,7 +1421,7 @@ func (fr *Frame) typeAssert(x *ssa.TypeAssert) Val {
 		v := e.sc.define("ta.v", e.sortOf(x.AssertedType), sIte(ok, val, e.zero(x.AssertedType)))
 		return Val{Tuple: []Val{{T: v, Ty: x.AssertedType}, {T: ok, Ty: boolT}}, Ty: x.Type()}
 	}
-	fr.oblige("typeassert", x.X.Name(), ok)
+	fr.oblige("typeassert", fr.srcText(x.Pos(), fr.stableName(x.X)), ok)
 	return Val{T: val, Ty: x.AssertedType}
 }
 
@@ -1452,14 +1499,14 @@ func (fr *Frame) binop(x *ssa.BinOp) Val {
 		r = "(* " + a.T + " " + b.T + ")"
 		needRange = true
 	case token.QUO:
-		fr.oblige("div0", x.Y.Name(), "(not (= "+b.T+" 0))")
+		fr.oblige("div0", fr.srcText(x.Pos(), x.Y.Name()), "(not (= "+b.T+" 0))")
 		if signed {
 			r = "(tdiv " + a.T + " " + b.T + ")"
 		} else {
 			r = "(div " + a.T + " " + b.T + ")"
 		}
 	case token.REM:
-		fr.oblige("div0", x.Y.Name(), "(not (= "+b.T+" 0))")
+		fr.oblige("div0", fr.srcText(x.Pos(), x.Y.Name()), "(not (= "+b.T+" 0))")
 		if signed {
 			r = "(tmod " + a.T + " " + b.T + ")"
 		} else {
@@ -1510,8 +1557,18 @@ func (fr *Frame) binop(x *ssa.BinOp) Val {
 	}
 	r = e.sc.define(x.Name(), "Int", r)
 	if needRange {
-		if e.checks("overflow") {
-			fr.oblige("overflow", x.Op.String()+"("+x.Name()+")", e.rangeOf(r, t))
+		txt := fr.srcText(x.Pos(), x.Op.String()+"("+x.Name()+")")
+		if fr.wrapsAt(txt) {
+			// declared wrap-around site: modular semantics, no obligation
+			if signed {
+				h := pow2str(bits - 1)
+				r = e.sc.define(x.Name()+"w", "Int", "(- (mod (+ "+r+" "+h+") "+pow2str(bits)+") "+h+")")
+			} else {
+				r = e.sc.define(x.Name()+"w", "Int", "(mod "+r+" "+pow2str(bits)+")")
+			}
+			e.assume("wrap-around declared harmless at `" + txt + "` in " + fr.prefix)
+		} else if e.checks("overflow") {
+			fr.oblige("overflow", txt, e.rangeOf(r, t))
 		} else {
 			fr.assumeHere(e.rangeOf(r, t))
 		}
@@ -1548,7 +1605,7 @@ func (fr *Frame) unop(x *ssa.UnOp) Val {
 		r := "(- " + a.T + ")"
 		if _, signed, _ := intBits(x.Type()); signed {
 			if e.checks("overflow") {
-				fr.oblige("overflow", "neg("+x.Name()+")", e.rangeOf(r, x.Type()))
+				fr.oblige("overflow", "neg("+fr.srcText(x.Pos(), "x")+")", e.rangeOf(r, x.Type()))
 			}
 		} else {
 			bits, _, _ := intBits(x.Type())
@@ -1564,7 +1621,7 @@ func (fr *Frame) unop(x *ssa.UnOp) Val {
 	case token.MUL:
 		pt := a.Ty.Underlying().(*types.Pointer).Elem()
 		if a.Src == nil {
-			fr.nilCheck(a, "load(*"+x.X.Name()+")")
+			fr.nilCheck(a, "load("+fr.srcText(x.Pos(), "*"+fr.stableName(x.X))+")")
 		}
 		fr.lockCheck(a, false)
 		if a.Src != nil && a.Src.kind == "global" {
@@ -1618,7 +1675,7 @@ func (fr *Frame) convert(x *ssa.Convert) Val {
 			r = "(- (mod (+ " + a.T + " " + h + ") " + pow2str(tb) + ") " + h + ")"
 		}
 		if e.topSpec != nil && e.topSpec.Attrs["checkconv"] || fr.spec != nil && fr.spec.Attrs["checkconv"] {
-			fr.oblige("conv", x.Name(), e.rangeOf(a.T, to))
+			fr.oblige("conv", fr.srcText(x.Pos(), fr.stableName(x.X)), e.rangeOf(a.T, to))
 		}
 		return Val{T: e.sc.define(x.Name(), "Int", r), Ty: to}
 	}
@@ -1650,4 +1707,128 @@ func (fr *Frame) convert(x *ssa.Convert) Val {
 		}
 	}
 	return fr.freshVal("conv", to)
+}
+
+// ------------------------------------------------------------------ source expression text for obligation names
+
+func (fr *Frame) srcText(pos token.Pos, fallback string) string {
+	if !pos.IsValid() {
+		return fallback
+	}
+	if fr.srcMap == nil {
+		fr.srcMap = map[token.Pos]string{}
+		root := fr.fn
+		var syn ast.Node = root.Syntax()
+		if syn != nil {
+			ast.Inspect(syn, func(n ast.Node) bool {
+				switch x := n.(type) {
+				case *ast.BinaryExpr:
+					fr.srcMap[x.OpPos] = exprText(x)
+				case *ast.IndexExpr:
+					fr.srcMap[x.Lbrack] = exprText(x)
+					if _, ok := fr.srcMap[x.Pos()]; !ok {
+						fr.srcMap[x.Pos()] = exprText(x)
+					}
+				case *ast.SliceExpr:
+					fr.srcMap[x.Lbrack] = exprText(x)
+					if _, ok := fr.srcMap[x.Pos()]; !ok {
+						fr.srcMap[x.Pos()] = exprText(x)
+					}
+				case *ast.SelectorExpr:
+					fr.srcMap[x.Sel.Pos()] = exprText(x)
+				case *ast.StarExpr:
+					fr.srcMap[x.Star] = exprText(x)
+				case *ast.UnaryExpr:
+					fr.srcMap[x.OpPos] = exprText(x)
+				case *ast.CallExpr:
+					fr.srcMap[x.Lparen] = exprText(x.Fun) + "()"
+				case *ast.IncDecStmt:
+					fr.srcMap[x.TokPos] = exprText(x.X) + x.Tok.String()
+				case *ast.AssignStmt:
+					if x.Tok != token.ASSIGN && x.Tok != token.DEFINE && len(x.Lhs) == 1 && len(x.Rhs) == 1 {
+						fr.srcMap[x.TokPos] = exprText(x.Lhs[0]) + x.Tok.String() + exprText(x.Rhs[0])
+					}
+				}
+				return true
+			})
+		}
+	}
+	if t, ok := fr.srcMap[pos]; ok {
+		return t
+	}
+	return fallback
+}
+
+func exprText(x ast.Expr) string {
+	switch v := x.(type) {
+	case *ast.Ident:
+		return v.Name
+	case *ast.SelectorExpr:
+		return exprText(v.X) + "." + v.Sel.Name
+	case *ast.BinaryExpr:
+		return exprText(v.X) + v.Op.String() + exprText(v.Y)
+	case *ast.BasicLit:
+		return v.Value
+	case *ast.CallExpr:
+		var as []string
+		for _, a := range v.Args {
+			as = append(as, exprText(a))
+		}
+		return exprText(v.Fun) + "(" + strings.Join(as, ",") + ")"
+	case *ast.ParenExpr:
+		return "(" + exprText(v.X) + ")"
+	case *ast.IndexExpr:
+		return exprText(v.X) + "[" + exprText(v.Index) + "]"
+	case *ast.SliceExpr:
+		lo, hi := "", ""
+		if v.Low != nil {
+			lo = exprText(v.Low)
+		}
+		if v.High != nil {
+			hi = exprText(v.High)
+		}
+		return exprText(v.X) + "[" + lo + ":" + hi + "]"
+	case *ast.StarExpr:
+		return "*" + exprText(v.X)
+	case *ast.UnaryExpr:
+		return v.Op.String() + exprText(v.X)
+	case *ast.ArrayType:
+		return "[]" + exprText(v.Elt)
+	case *ast.CompositeLit:
+		return exprText(v.Type) + "{}"
+	case *ast.TypeAssertExpr:
+		return exprText(v.X) + ".(type)"
+	case *ast.FuncLit:
+		return "func"
+	case nil:
+		return ""
+	}
+	return "?"
+}
+
+func (fr *Frame) wrapsAt(txt string) bool {
+	if fr.spec == nil {
+		return false
+	}
+	return fr.spec.Attrs["wraps "+txt] || fr.spec.Attrs["wraps"]
+}
+
+func (fr *Frame) stableName(v ssa.Value) string {
+	switch x := v.(type) {
+	case *ssa.Parameter:
+		return x.Name()
+	case *ssa.FreeVar:
+		return x.Name()
+	case *ssa.Global:
+		return x.Name()
+	case *ssa.Alloc:
+		if x.Comment != "" {
+			return x.Comment
+		}
+	case *ssa.Phi:
+		if x.Comment != "" {
+			return x.Comment
+		}
+	}
+	return "expr"
 }
